@@ -76,6 +76,11 @@ def gen_cases(tier, seed):
             # continuation), and an observer that plays during that move
             for k in (1, 2):
                 plist.append([{'at': s0, 'act': ['resume', ['then-pause']]}, {'at': s0, 'act': ['pause', 'p']}, {'at': ['listener', 'running', k], 'act': ['play']}])
+        # an observer that pauses the process when it is told that it waits (the pause is requested inside the move into the wait)
+        for k in (1, 2):
+            plist.append([{'at': ['listener', 'waiting', k], 'act': ['pause', 'p']}])
+            plist.append([{'at': ['listener', 'waiting', k], 'act': ['pause', 'p']}, {'at': 'q', 'act': ['resume', ['while-paused']]}, {'at': 'q', 'act': ['play']}])
+            plist.append([{'at': ['listener', 'waiting', k], 'act': ['pause', 'p']}, {'at': 'q', 'act': ['play']}, {'at': 'q', 'act': ['resume', ['after-play']]}])
         for i, plan in enumerate(plist):
             yield {'kind': 'plain', 'name': name, 'program': prog, 'plan': plans.uniq(plan, 'q%d' % i), 'drain': True, 'listener': True}
     # (b) workchains
